@@ -30,7 +30,7 @@ def run(ctx, report):
         'every size keyword of dict_to_ad.ad_size is a p_PTRSIZE alternative mapping back to the same size token (modulo the equivalences the assembler '
         'applies). D2: exactly one key of mmx_suffixes occurs in every "#" row name; the map (row name, mandatory prefix) -> printed mnemonic is injective '
         'except for collisions the assembler special-cases by name; every printed name is a key of mnemo_mmx_hash mapping to its row. D3: the special cases '
-        'mirrored in both directions are inverse tables (x_0f_ae fences, movlps/movhps register forms, implicit-operand name lists).')
+        'mirrored in both directions are inverse tables (x_0f_ae fences, movlps/movhps register forms, implicit-operand name lists). D4: a linear-use typestate over the paths of dict_to_ad: the displacement/immediate, the symbol part and the segment override of an operand each reach the output exactly once (an emission is followed by a reset before any later emission; no path returns with a live component).')
     report.not_decided = 'equality of bytes after a concrete trip; the txt operand-order memo; candidate set membership (ModRM/SIB synthesis at run time).'
 
     pa, pregs, psegs = lexicon(ctx, 'parse_ad', afs)
@@ -208,8 +208,40 @@ def run(ctx, report):
             R3.violation(inst, 'implicit:%s' % lst, 'implicit operands of %s are %s by the printer but %s by the assembler'
                          % (lst, 'dropped' if in_str else 'not dropped', 're-added' if in_na else 'not re-added'), where(arch, na))
 
+    R4 = report.rule('C03.D4', 'the operand renderer emits displacement, symbol and segment exactly once on every path', floor=6)
+    from ..linear import Linear
+    branches = {}
+    node = None
+    for st in d2a.body:
+        if isinstance(st, ast.If) and u(st.test) == 'is_reg(d)':
+            node = st
+    while node is not None:
+        branches[u(node.test)] = node.body
+        node = node.orelse[0] if len(node.orelse) == 1 and isinstance(node.orelse[0], ast.If) else None
+    if 'is_imm(d)' not in branches or 'is_address(d)' not in branches:
+        raise AnalysisError('dict_to_ad: is_imm / is_address branches not found')
+    for bname, var in (('is_imm(d)', 'immediate'), ('is_address(d)', 'immediate'), ('is_address(d)', 'symbol'), ('is_address(d)', 'segment')):
+        probs = []
+        lin = Linear(var, lambda n: probs.append(('twice', n)), lambda n: probs.append(('dropped', n)))
+        lin.block(branches[bname], {'Z'})
+        inst = 'dict_to_ad[%s].%s' % (bname, var)
+        if lin.emissions == 0 or lin.returns == 0:
+            raise AnalysisError('%s: no emission site / return found' % inst)
+        if probs:
+            for kind, n in probs:
+                R4.violation(inst, 'linear:%s:%s:%s' % (bname, var, kind), 'dict_to_ad (%s operands): on some path the %s is %s -- at `%s`' % (
+                    'memory' if 'address' in bname else 'immediate', {'immediate': 'displacement/immediate', 'symbol': 'symbol part', 'segment': 'segment override'}[var],
+                    'written to the output twice' if kind == 'twice' else 'never written to the output', norm(n)[:70]), where(arch, n),
+                    witness="dis(8b 04 85 00 10 00 00) renders [4096+eax*4+4096]" if var == 'immediate' and kind == 'twice' else None)
+        else:
+            R4.ok(inst, sample='%s: %d emission sites, %d returns, each path emits it once' % (inst, lin.emissions, lin.returns))
+        for k in range(lin.emissions):
+            R4.ok('%s:site%d' % (inst, k), nontrivial=False)
+
 
 MUTANTS = [
+    ('disp-twice', 'miasmx/arch/ia32_arch.py', "                        address[0] = add_imm_to_string(\"\", immediate, imm_size)\n                        immediate = 0\n", "                        address[0] = add_imm_to_string(\"\", immediate, imm_size)\n", 'C03.D4'),
+    ('symbol-twice', 'miasmx/arch/ia32_arch.py', "                address += ' + ' + symbol\n                symbol = ''\n", "                address += ' + ' + symbol\n", 'C03.D4'),
     ('no-mm-lexicon', 'miasmx/core/parse_ad.py', "for name in x86_afs.reg_mm:\n    registers[name] = x86_afs.mm\n", "", 'C03.D1'),
     ('qword-f32', 'miasmx/core/parse_ad.py', "        'qword': x86_afs.f64,", "        'qword': x86_afs.f32,", 'C03.D1'),
     ('suffix-swap', 'miasmx/arch/ia32_arch.py', "    '#hps#':  ('hps', 'hpd', 'INVALID', 'shdup'),", "    '#hps#':  ('lps', 'hpd', 'INVALID', 'shdup'),", 'C03.D2'),
